@@ -22,7 +22,7 @@ def _alarm(signum, frame):
 
 
 def set_config(mode):
-    """The configuration dimension of a case: 0 = pyoak's defaults, 1 = tracing on (pyoak.config.TRACE_LOGGING and the legacy
+    """The configuration dimension of a case: 0 = pyoak's defaults, 3 = CODEGEN_DEBUG on, 1 = tracing on (pyoak.config.TRACE_LOGGING and the legacy
     package's own switch; the debug records go to loggers without handlers), 2 = the runtime type check on.  No property
     is stated relative to these switches.  Returns the function that puts the defaults back."""
     if not mode:
@@ -45,9 +45,20 @@ def set_config(mode):
             leg.TRACE_LOGGING = True
     elif mode == 2:
         cfg.RUNTIME_TYPE_CHECK = True
+    old_dbg, old_out = cfg.CODEGEN_DEBUG, sys.stdout
+    if mode == 3:
+        # the generated accessor sources are printed: into the void (the worker's stdout is a pipe nobody reads while it runs)
+        cfg.CODEGEN_DEBUG = True
+        sys.stdout = open(os.devnull, "w")
 
     def restore():
         cfg.TRACE_LOGGING, cfg.RUNTIME_TYPE_CHECK = old
+        if mode == 3:
+            cfg.CODEGEN_DEBUG = old_dbg
+            try:
+                sys.stdout.close()
+            finally:
+                sys.stdout = old_out
         if leg is not None and old_leg is not None:
             leg.TRACE_LOGGING = old_leg
     return restore
